@@ -22,10 +22,18 @@ def _copy_crate(scratch):
     return dst
 
 
+def _registry():
+    src = open(os.path.join(KANI_SRC, "src", "registry.rs")).read()
+    src = src[src.index("registry!(\n"):]
+    k = re.search(r"kani:\s*\[(.*?)\]", src, re.S).group(1)
+    n = re.search(r"native:\s*\[(.*?)\]", src, re.S).group(1)
+    f = lambda t: [x.strip() for x in t.replace("\n", " ").split(",") if x.strip()]
+    return f(k), f(n)
+
+
 def all_harnesses():
-    src = open(os.path.join(KANI_SRC, "src", "harness.rs")).read()
-    m = re.search(r"registry!\((.*?)\);", src, re.S)
-    return [x.strip() for x in m.group(1).replace("\n", " ").split(",") if x.strip()]
+    k, n = _registry()
+    return k + n
 
 
 def harnesses_for(prop):
@@ -36,14 +44,11 @@ def harnesses_for(prop):
     return [n for n in names if any(n.startswith(p) for p in prefixes)]
 
 
-SMALL = ("f81", "f82", "f83", "f162")
-
-
 def kani_feasible(name):
-    """Kani is run only on harnesses whose every operand type is a small Bvf (<= 32 bits, u32 reference model);
+    """Kani proof harnesses exist only for the `kani:` list of kani/src/registry.rs: harnesses whose every operand
+    type is a small Bvf (<= 32 bits, u32 reference model) and that need no panic catching / String / Vec machinery;
     the 128-bit types (Bvf<u64,2>, Bvd, Bv) are covered by native random search only (not bounded-exhaustive)"""
-    parts = name.split("__", 1)[1].split("_")
-    return all(p in SMALL for p in parts)
+    return name in _registry()[0]
 
 
 def _kani_once(names, scratch, jobs, timeout, playback):
@@ -115,14 +120,15 @@ def run_kani(names, scratch, jobs=12, timeout=1500, playback=True):
     return res, log, time.time() - t0
 
 
-def build_replay(scratch):
+def build_replay(scratch, profile="release"):
+    """native build of the harness crate against /repo's working tree (release: no debug assertions; dev: with them)"""
     crate = _copy_crate(scratch)
     env = dict(os.environ)
     env["CARGO_NET_OFFLINE"] = "true"
     env["CARGO_TARGET_DIR"] = os.path.join(scratch, "native_target")
-    p = subprocess.run(["cargo", "build", "--offline", "--release", "--bin", "replay"], cwd=crate, env=env,
-                       stdout=subprocess.PIPE, stderr=subprocess.STDOUT)
-    exe = os.path.join(scratch, "native_target", "release", "replay")
+    cmd = ["cargo", "build", "--offline", "--bin", "replay"] + (["--release"] if profile == "release" else [])
+    p = subprocess.run(cmd, cwd=crate, env=env, stdout=subprocess.PIPE, stderr=subprocess.STDOUT)
+    exe = os.path.join(scratch, "native_target", "release" if profile == "release" else "debug", "replay")
     if p.returncode != 0 or not os.path.exists(exe):
         raise RuntimeError("native build of the replay harness failed:\n" + p.stdout.decode("utf-8", "replace")[-2000:])
     return exe
@@ -136,16 +142,31 @@ def native_replay(exe, name, bs):
     return p.returncode, out, (panic[0] if panic else None)
 
 
-def fuzz(exe, names, runs, seed):
-    """native random search with the same executable contracts (cheap; used before Kani)"""
-    found = {}
-    for n in names:
+def fuzz(exe, names, runs, seed, workers=12):
+    """native random search with the executable contracts; -> (found: name -> bytes, stats: name -> nonvacuous runs)"""
+    import concurrent.futures
+    found, stats = {}, {}
+
+    def one(n):
         p = subprocess.run([exe, "--fuzz", n, str(runs), str(seed)], stdout=subprocess.PIPE, stderr=subprocess.DEVNULL)
-        for line in p.stdout.decode().split("\n"):
-            if line.startswith("FAIL "):
-                _, name, hexs = line.split()
-                found[name] = [int(hexs[i:i + 2], 16) for i in range(0, len(hexs), 2)]
-    return found
+        return n, p.stdout.decode()
+    with concurrent.futures.ThreadPoolExecutor(max_workers=workers) as ex:
+        for n, out in ex.map(one, names):
+            for line in out.split("\n"):
+                if line.startswith("FAIL "):
+                    _, name, hexs = line.split()
+                    found[name] = [int(hexs[i:i + 2], 16) for i in range(0, len(hexs), 2)]
+                elif line.startswith("ok "):
+                    m = re.search(r"nonvacuous=(\d+)", line)
+                    stats[n] = int(m.group(1)) if m else 0
+    return found, stats
+
+
+def describe(exe, name, bs):
+    rc, out, panic = native_replay(exe, name, bs)
+    return {"harness": name, "input_bytes": bs, "input_hex": "".join("%02x" % b for b in bs),
+            "replayed_on_real_code": rc == 1, "replay_result": out, "failed_assertion": list(panic) if panic else None,
+            "replay_cmd": "bin/check --replay <this file>"}
 
 
 def search(prop, unit, violations, scratch, seed=1):
@@ -155,7 +176,7 @@ def search(prop, unit, violations, scratch, seed=1):
         return None
     exe = build_replay(scratch)
     # 1. cheap: native random inputs
-    found = fuzz(exe, names, 200000, seed or 1)
+    found, _ = fuzz(exe, names, 200000, seed or 1)
     src = "native random search (executable contract, %d harnesses)" % len(names)
     kani_log = ""
     if not found:
